@@ -15,6 +15,8 @@
 //!   HTTP/2   complete · a stream reset with RST_STREAM then another stream ·
 //!            client gone in the middle of a stream
 //!   TCP      complete · reset · backend refusal
+//!   silence  TLS handshake never started · H2 request stalled mid-body · idle TLS keep-alive · idle TCP
+//!            relay: each reclaimed by 2 s timeouts
 //!   limits   a storm above `max_connections` · the per-(cluster, ip) limit
 //!            raised / lowered / disabled at run time (`SetMaxConnectionsPerIp`)
 //!            · optional eviction on queue full
@@ -501,6 +503,8 @@ fn main() {
     let front: SocketAddr = format!("127.0.0.1:{}", free_port()).parse().unwrap();
     let front2: SocketAddr = format!("127.0.0.1:{}", free_port()).parse().unwrap();
     let fronts: SocketAddr = format!("127.0.0.1:{}", free_port()).parse().unwrap();
+    let fronts2: SocketAddr = format!("127.0.0.1:{}", free_port()).parse().unwrap();
+    let tcp_good2: SocketAddr = format!("127.0.0.1:{}", free_port()).parse().unwrap();
     let tcp_good: SocketAddr = format!("127.0.0.1:{}", free_port()).parse().unwrap();
     let tcp_dead: SocketAddr = format!("127.0.0.1:{}", free_port()).parse().unwrap();
     let back_listener = TcpListener::bind("127.0.0.1:0").unwrap();
@@ -544,10 +548,17 @@ fn main() {
     lb2.with_front_timeout(Some(2)).with_request_timeout(Some(2)).with_back_timeout(Some(2)).with_connect_timeout(Some(1));
     let mut lbs = ListenerBuilder::new_https(fas.clone());
     lbs.with_connect_timeout(Some(1));
+    // HTTPS and TCP listeners with 2 s timeouts, for the sessions that go silent and must be reclaimed
+    let fas2: SocketAddress = fronts2.into();
+    let mut lbs2 = ListenerBuilder::new_https(fas2.clone());
+    lbs2.with_front_timeout(Some(2)).with_request_timeout(Some(2)).with_back_timeout(Some(2)).with_connect_timeout(Some(1));
     let tcp_listener = |a: SocketAddr, cluster: &str| -> Vec<RequestType> {
         let sa: SocketAddress = a.into();
         let mut b = ListenerBuilder::new_tcp(sa.clone());
         b.with_connect_timeout(Some(1));
+        if a == tcp_good2 {
+            b.with_front_timeout(Some(2)).with_back_timeout(Some(2));
+        }
         vec![
             RequestType::AddTcpListener(b.to_tcp(None).unwrap()),
             RequestType::ActivateListener(ActivateListener { address: sa.clone(), proxy: ListenerType::Tcp.into(), from_scm: false }),
@@ -590,6 +601,14 @@ fn main() {
         RequestType::AddHttpsFrontend(front_of("good", "localhost", &fas)),
         RequestType::AddCertificate(AddCertificate {
             address: fas.clone(),
+            certificate: CertificateAndKey { certificate: cert.clone(), key: key.clone(), certificate_chain: vec![], versions: vec![], names: vec![] },
+            expired_at: None,
+        }),
+        RequestType::AddHttpsListener(lbs2.to_tls(None).unwrap()),
+        RequestType::ActivateListener(ActivateListener { address: fas2.clone(), proxy: ListenerType::Https.into(), from_scm: false }),
+        RequestType::AddHttpsFrontend(front_of("good", "localhost", &fas2)),
+        RequestType::AddCertificate(AddCertificate {
+            address: fas2.clone(),
             certificate: CertificateAndKey { certificate: cert, key, certificate_chain: vec![], versions: vec![], names: vec![] },
             expired_at: None,
         }),
@@ -598,6 +617,7 @@ fn main() {
     ];
     setup.extend(tcp_listener(tcp_good, "good"));
     setup.extend(tcp_listener(tcp_dead, "dead"));
+    setup.extend(tcp_listener(tcp_good2, "good"));
     for (i, r) in setup.into_iter().enumerate() {
         match send(&mut main_ch, &format!("S-{i}"), r) {
             Some(resp) if resp.status == ResponseStatus::Ok as i32 => {}
@@ -623,7 +643,7 @@ fn main() {
     let mut went_ok_last;
     // the tightest limit that was in force ever since some still-open connection was admitted: the
     // storm only holds connections it opened itself after the last change, so `limit` is it
-    const NKINDS: u64 = 23;
+    const NKINDS: u64 = 27;
     let mut counts = [0usize; NKINDS as usize];
     // how many times the outcome went as scripted (e.g. the response did arrive): coverage, not an oracle
     let mut went = [0usize; NKINDS as usize];
@@ -863,6 +883,52 @@ fn main() {
                     }
                 }
             }
+            23 => {
+                // a TLS handshake that never starts: reclaimed by the front timeout (2 s)
+                if let Some(mut c) = tcp(&fronts2) {
+                    if !wait_closed(&mut c, Duration::from_secs(40)) {
+                        println!("viol not-reclaimed a connection that never sent its ClientHello was still open after 40 s (front_timeout = 2 s)");
+                    } else {
+                        went[kind] += 1;
+                    }
+                }
+            }
+            24 => {
+                // an H2 request whose body never comes, client silent: reclaimed by the timeouts (2 s)
+                if let Some(mut s) = h2_open(&fronts2) {
+                    let _ = s.write_all(&h2_frame(1, 4, 1, &h2_headers(true, "/x")));
+                    let _ = s.flush();
+                    if !wait_closed(&mut s, Duration::from_secs(40)) {
+                        println!("viol not-reclaimed an HTTP/2 connection stalled in the middle of a request was still open after 40 s (timeouts = 2 s)");
+                    } else {
+                        went[kind] += 1;
+                    }
+                }
+            }
+            25 => {
+                // HTTP/1.1 over TLS, served, then silent: reclaimed by the front timeout (2 s)
+                if let Some(mut s) = tls_connect(&fronts2, &[b"http/1.1"]) {
+                    let _ = s.write_all(request("localhost", "/x", false).as_bytes());
+                    let _ = read_response(&mut s, Duration::from_secs(5));
+                    if !wait_closed(&mut s, Duration::from_secs(40)) {
+                        println!("viol not-reclaimed an idle keep-alive TLS connection was still open after 40 s (front_timeout = 2 s)");
+                    } else {
+                        went[kind] += 1;
+                    }
+                }
+            }
+            26 => {
+                // a TCP relay that goes silent: reclaimed by the timeouts (2 s)
+                if let Some(mut c) = tcp(&tcp_good2) {
+                    let _ = c.write_all(b"PING / HTTP/1.1\r\n\r\n");
+                    let _ = read_response(&mut c, Duration::from_secs(5));
+                    if !wait_closed(&mut c, Duration::from_secs(40)) {
+                        println!("viol not-reclaimed an idle TCP relay was still open after 40 s (timeouts = 2 s)");
+                    } else {
+                        went[kind] += 1;
+                    }
+                }
+            }
             21 => {
                 // a storm above max_connections: everybody asks, nobody leaves
                 let n = maxc as usize + 3;
@@ -930,7 +996,7 @@ fn main() {
         }
         // sessions of the HTTPS and TCP listeners and WebSocket sessions close through their own paths:
         // look for a slot they left behind before a later session recycles their token
-        if matches!(kind, 8 | 9 | 12 | 13 | 14 | 15 | 16 | 17 | 22) {
+        if matches!(kind, 8 | 9 | 12 | 13 | 14 | 15 | 16 | 17 | 22 | 24 | 25 | 26) {
             std::thread::sleep(Duration::from_millis(60));
             if slot_probe(&mut main_ch, &format!("P-{round}"), maxc, &front, limit) == Some(false) {
                 println!("viol slot-leak after outcome {kind}: nothing talks to the cluster, the per-(cluster, ip) limit is 1, silent connections hold the recycled tokens, and a fresh connection was refused 429: a slot of a closed session is still held");
